@@ -15,7 +15,7 @@ def args_for(unit, failure, tier='quick'):
         return ['c08-reach']
     if unit == 'U-COMPACTAS' or unit in ('kani:uint_predicate_table', 'kani:compact_as_unnamed_upto3'):
         return ['c08-compactas']
-    if unit == 'U-SANITY' or unit == 'kani:sanity_pass_upto4':
+    if unit in ('U-SANITY', 'U-CALLS') or unit == 'kani:sanity_pass_upto4':
         return ['c10-sanity']
     if unit == 'U-RESOLVE':
         return ['c10-resolve']
